@@ -18,6 +18,14 @@ CHECKS = {
             "Cumulative slot ranges equal the flattened expected sequence in the model; the real mock accepts exactly the model's prefixes and answers each slot with its response; the first deviation panics with the class the model gives."),
     "C07": ("model_checking", "3.3, 6/C07", "TLC invariants FallbackTable/NoFabrication on Mock.tla; the complete decision table replayed on the universe methods",
             "The decision table is finite and enumerated completely (strict/partial x unmentioned/unmatched/matched x default/unmock/both/neither x any/ord x position); outcomes (default body ran / real function ran / panic class) and untouched counters are compared with the real code."),
+    "C08": ("model_checking", "3.3, 6/C08", "TLC invariant ErrorsRemembered on Mock.tla; every error kind and user panics replayed, final verify() message compared with the observed panic texts",
+            "Every mock-induced error class at every position of short histories, interleaved with user panics that must not be recorded; the verification message must contain each observed error text in order. (Threads and crash points: see the Conc/Lifecycle engines when claimed.)"),
+    "C12": ("model_checking", "3.3, 6/C12", "TLC invariant SingleDelivery on Mock.tla; clone/drop counters of every configured value compared after teardown",
+            "Sequential histories of 0..N requests for single-use and repeat-use values on the original and over clones: exactly one delivery, later requests panic, each value constructed once, cloned once per delivery (never for single-use) and dropped exactly once per copy."),
+    "C15": ("model_checking", "3.3, 6/C15", "Mock.tla default-body frames (scripts of nested required-method calls) enumerated by TLC and replayed through the real default bodies",
+            "Default bodies run through the real delegation helper; nested required calls must hit the same counters, ordered slots and responses as the model's shared state predicts, mixed with direct calls; &self receivers in this engine."),
+    "C16": ("model_checking", "3.3, 6/C16", "Mock.tla real-function frames (re-entrant scripts) enumerated by TLC and replayed through the functions registered with unmock_with",
+            "applies_unmocked() and partial fall-through resolve to exactly one invocation of the registered function with the caller's argument, nested calls evaluated by the same mock (recursion depth <= 2), CannotUnmock where none is registered."),
 }
 
 NOT_YET = {
